@@ -91,4 +91,10 @@ TEXT = {
   "note": "default depth-counting mode; stack representation excluded (attaches no labels); tuples opaque",
   "technique": "TLA+ structural definitions evaluated by TLC on projected programs (trace validation) + derivation-machine model",
  },
+ "C06": {
+  "level": "GEVariation defines tree recombination declaratively (one subterm of a parent replaced by a subterm of the other) and TLC checks, for every parent pair of small languages and every outcome, that the linear-time recogniser used on traces accepts it and that typed offspring stays refinement-correct and depth-bounded (a fresh-tree variant must be rejected); recorded crossovers and mutations of all five representations are validated by TLC: tree children are recombinations of their parents, every gene of a linear / structured child comes from a parent at the same locus, point mutations change at most one gene and keep shape and length.",
+  "ref": "DESIGN.md section 4 C06",
+  "note": "tree crossover with an abstract starting symbol: open finding",
+  "technique": "TLA+ model checking (TLC) of the recombination definitions + trace validation of recorded variation calls",
+ },
 }
